@@ -12,7 +12,7 @@ The theorems about `write` are about the code **after** the `fix:` commit of def
 sample stream) whose length samples are at most one segment — which `C12.sample_in_table`
 gives for the `[0, MSS]` length distribution.  `prefix_zero_sample_panics` is the kernel-checked
 witness that `paranoid_exact`/`write_no_panic` were false of the code before the fix;
-`only_zero_table_never_finishes` and `single_length_table_cycles` are the witnesses of the two
+`only_zero_table_never_finishes` and `single_value_table_pads_forever` are the witnesses of the two
 recorded findings (termination is almost-sure at best, and fails surely for those tables).
 -/
 namespace C09
@@ -220,7 +220,7 @@ theorem burst_ends_on_target {σ : Type} (S : Sampler σ) (hS : LenBounded S) (m
     writing.  After (c) no sample can trigger (c) again before a write (`buf > MSS ≥ t`).  Hence a
     single *usable* sample (`t = buf`, or `buf + headerLength < t`) ends the `Write` whatever was
     drawn before; termination for **every** stream does not hold
-    (`single_length_table_cycles`, `only_zero_table_never_finishes`): it is almost sure at best. -/
+    (`single_value_table_pads_forever`, `only_zero_table_never_finishes`): it is almost sure at best. -/
 theorem paranoid_progress :
     (∀ buf t, 0 < buf → t ≤ mss →
       (t = 0 ∧ paranoidStep true buf t = .resample) ∨
@@ -355,50 +355,85 @@ theorem only_zero_table_never_finishes {σ : Type} (S : Sampler σ)
       rw [this]
       exact ih buf fr ws ds s1 hb
 
-/-- **Recorded finding `paranoid-single-length-table-never-terminates`.** If every length
-    sample is 10 (the table is `{10}`, e.g. DRBG seed `1eeb947e…a6e0`), a paranoid `Write` of one
-    byte never finishes, for any fuel and any IAT samples: 22 → 12 → 2 → (two padding frames)
-    1479 → … → 9 → 1479 → … . -/
-theorem single_length_table_cycles {σ : Type} (S : Sampler σ)
+/-- **Recorded finding `paranoid-single-value-table-pads-forever`.** Let the length table be the
+    single value `v` (every length sample is `v`, `0 < v ≤ MSS`) with
+    `r = (MSS + headerLength) mod v ≠ 0` and `v - r ≤ headerLength` (110 of the 1448 possible values,
+    e.g. 10 or 135).  Once the buffered length `buf` has a remainder within a header of `v`
+    (`buf mod v ≠ 0 ∧ v - buf mod v ≤ headerLength`) the paranoid loop never finishes, for any fuel
+    and any IAT samples: it writes `v` bytes until fewer than `v` are left, pads them with two
+    frames to `v + MSS + headerLength`, whose remainder is `r` again — a deterministic cycle of
+    endless padding traffic. -/
+theorem single_value_table_pads_forever {σ : Type} (S : Sampler σ) (v : Nat) (hv0 : 0 < v)
+    (hv : v ≤ mss) (hr0 : (mss + headerLength) % v ≠ 0)
+    (hr : v - (mss + headerLength) % v ≤ headerLength)
+    (hconst : ∀ s t s', S.len s = some (t, s') → t = v) :
+    ∀ (fuel buf : Nat) (fr : List Nat) (ws : List Wr) (ds : List Nat) (s : σ),
+      buf % v ≠ 0 → v - buf % v ≤ headerLength →
+      (paranoidLoop S true fuel buf fr ws ds s).status = .starved := by
+  intro fuel
+  induction fuel with
+  | zero => intro buf fr ws ds s _ _; rfl
+  | succ f ih =>
+    intro buf fr ws ds s hb1 hb2
+    have hb0 : buf ≠ 0 := by
+      intro h; subst h; simp at hb1
+    cases hlen : S.len s with
+    | none => rw [paranoidLoop_none S true f buf hb0 fr ws ds s hlen]
+    | some q =>
+      obtain ⟨t, s1⟩ := q
+      have := hconst s t s1 hlen
+      subst this
+      rw [paranoidLoop_some S true f buf hb0 fr ws ds s t s1 hlen]
+      rcases paranoidStep_spec buf t (by omega) hv with
+        ⟨h, _⟩ | ⟨_, hle, hst⟩ | ⟨hlt, hbig, _⟩ | ⟨hlt, _, hst⟩
+      · omega
+      · rw [hst]
+        have hmod : (buf - t) % t = buf % t := (Nat.mod_eq_sub_mod hle).symm
+        cases hi : S.iat s1 with
+        | none => rfl
+        | some r =>
+          obtain ⟨d, s2⟩ := r
+          exact ih _ _ _ _ _ (by rw [hmod]; exact hb1) (by rw [hmod]; exact hb2)
+      · have : buf % t = buf := Nat.mod_eq_of_lt hlt
+        omega
+      · rw [hst]
+        have hmod : (t + mss + headerLength) % t = (mss + headerLength) % t := by
+          rw [Nat.add_assoc, Nat.add_mod_left]
+        exact ih _ _ _ _ _ (by rw [hmod]; exact hr0) (by rw [hmod]; exact hr)
+
+/-- instance: table `{10}` (DRBG seed `1eeb947e…a6e0`), `Write` of one byte — never finishes:
+    22 → 12 → 2 → (two padding frames) 1479 → … → 9 → 1479 → … -/
+theorem single_value_10_never_finishes {σ : Type} (S : Sampler σ)
     (h10 : ∀ s t s', S.len s = some (t, s') → t = 10) (fuel : Nat) (s : σ) :
     (write S true iatParanoid 1 fuel s).status = .starved := by
-  have key : ∀ (fuel buf : Nat) (fr : List Nat) (ws : List Wr) (ds : List Nat) (s : σ),
-      (buf % 10 = 2 ∨ buf % 10 = 9) →
-      (paranoidLoop S true fuel buf fr ws ds s).status = .starved := by
-    intro fuel
-    induction fuel with
-    | zero => intro buf fr ws ds s _; rfl
-    | succ f ih =>
-      intro buf fr ws ds s hb
-      have hb0 : buf ≠ 0 := by omega
-      cases hlen : S.len s with
-      | none => rw [paranoidLoop_none S true f buf hb0 fr ws ds s hlen]
-      | some q =>
-        obtain ⟨t, s1⟩ := q
-        have := h10 s t s1 hlen
-        subst this
-        rw [paranoidLoop_some S true f buf hb0 fr ws ds s 10 s1 hlen]
-        rcases paranoidStep_spec buf 10 (by omega) (by decide) with
-          ⟨h, _⟩ | ⟨_, hle, hst⟩ | ⟨hlt, hbig, _⟩ | ⟨hlt, _, hst⟩
-        · omega
-        · rw [hst]
-          cases hi : S.iat s1 with
-          | none => rfl
-          | some r =>
-            obtain ⟨d, s2⟩ := r
-            exact ih _ _ _ _ _ (by omega)
-        · have : headerLength = 21 := by decide
-          omega
-        · rw [hst]
-          apply ih
-          have h1 : mss = 1448 := by decide
-          have h2 : headerLength = 21 := by decide
-          omega
   have hchop : chop 1 1 = .ok [22] := rfl
   unfold write
   rw [hchop]
   have hb : (iatParanoid != iatParanoid) = false := by simp
   simp only [hb, Bool.false_eq_true, if_false]
-  exact key fuel _ _ _ _ _ (by decide)
+  exact single_value_table_pads_forever S 10 (by decide) (by decide) (by decide) (by decide) h10
+    fuel _ _ _ _ _ (by decide) (by decide)
+
+/-- instance: table `{135}` (the bridge identity reported by the handshake check), `Write` of
+    113 bytes: 134 buffered, padded by 1 with two frames to 1604, eleven writes of 135 leave 119,
+    padded by 16 to 1604 again, … -/
+theorem single_value_135_never_finishes {σ : Type} (S : Sampler σ)
+    (h : ∀ s t s', S.len s = some (t, s') → t = 135) (fuel : Nat) (s : σ) :
+    (write S true iatParanoid 113 fuel s).status = .starved := by
+  have hchop : chop 113 113 = .ok [134] := rfl
+  unfold write
+  rw [hchop]
+  have hb : (iatParanoid != iatParanoid) = false := by simp
+  simp only [hb, Bool.false_eq_true, if_false]
+  exact single_value_table_pads_forever S 135 (by decide) (by decide) (by decide) (by decide) h
+    fuel _ _ _ _ _ (by decide) (by decide)
+
+/-- the cycle made visible on the list sampler: with the constant stream 10 the buffered length
+    after the two-frame padding is 1479 both times, and only lengths of 10 are written -/
+example :
+    let o := write listSampler true iatParanoid 1 400 (List.replicate 400 10, List.replicate 400 0)
+    o.status = .starved ∧ o.frames = [22, 1448, 29, 1448, 22, 1448, 22] ∧
+      o.writes.all (fun w => w.size == 10) = true := by
+  decide +kernel
 
 end C09
